@@ -570,6 +570,20 @@ def run(ctx):
         judge_reprint(ctx, cases[i:i + 1000], "C19 generated")
     ctx.coverage["feature_histogram"] = dict(sorted(feats.items()))
 
+    # 3b. which forms of the parser AST did the inputs reach? (tags of the span-erased dump)
+    probe = [c["main"] for c in corpus] + list(printgen.SYNTAX_ONLY) + [c["main"] for c in cases[:60]]
+    seen = set()
+    for g in core.go_lines("reprint", [line_for("reprint", m, None, "(run false) (dump true)") for m in probe]):
+        seen.update(re.findall(r"\((\w+)", fields(g).get("D1", "")))
+    expected = {"prog", "fn", "block", "annotation", "name", "sing", "opt", "list", "obj", "int", "float", "bool", "str", "ident",
+                "null", "none", "range", "anyobj", "lambda", "grp", "pre", "infix", "assign", "call", "index", "member", "cast",
+                "blockexpr", "if", "match", "try", "let", "typedef", "trigger", "return", "break", "continue", "loop", "while",
+                "for", "expr"}
+    ctx.coverage["parser_ast_forms_reached"] = sorted(seen & expected)
+    ctx.coverage["parser_ast_forms_missed"] = sorted(expected - seen)
+    if expected - seen:
+        ctx.note("the generators did not reach these parser AST forms: " + ", ".join(sorted(expected - seen)))
+
     # 4. optimizer
     opt_cases = [{"main": src} for _, src in OPT_CORPUS]
     if caps.get("match_never"):
